@@ -1644,30 +1644,14 @@ DOMNode* DOMRangeImpl::traverseTextNode( DOMNode*n, bool isLeft, int how )
         XMLSize_t startLen = XMLString::stringLen(fStartContainer->getNodeValue());
         XMLSize_t offset = getStartOffset();
 
-        if (offset == 0) {
-            if ( how != CLONE_CONTENTS )
-                n->setNodeValue(XMLUni::fgZeroLenString);
-        }
-        else {
-            XMLCh* oldNodeValue;
-            XMLCh oldTemp[4000];
-
-            if (offset >= 3999)  {
-                oldNodeValue = (XMLCh*) fMemoryManager->allocate
-                (
-                    (offset+1) * sizeof(XMLCh)
-                );//new XMLCh[offset+1];
-            }
-            else {
-                oldNodeValue = oldTemp;
-            }
-            XMLString::subString(oldNodeValue, txtValue, 0, offset, ((DOMDocumentImpl *)fDocument)->getMemoryManager());
-
-            if ( how != CLONE_CONTENTS )
-                n->setNodeValue( ((DOMDocumentImpl *)fDocument)->getPooledString(oldNodeValue) );
-
-            if (offset>= 3999)
-                fMemoryManager->deallocate(oldNodeValue);//delete[] oldNodeValue;
+        // remove the selected characters [offset, length) with deleteData, so that the
+        // boundary-points of other ranges in this node move as DOM Range 2.12.2 requires
+        // (setNodeValue would send them all to offset 0)
+        if ( how != CLONE_CONTENTS && offset < startLen) {
+            if (n->getNodeType() == DOMNode::PROCESSING_INSTRUCTION_NODE)
+                ((DOMProcessingInstructionImpl*)n)->deleteData(offset, startLen - offset);
+            else
+                ((DOMCharacterData*)n)->deleteData(offset, startLen - offset);
         }
 
         if ( how==DELETE_CONTENTS )
@@ -1705,30 +1689,12 @@ DOMNode* DOMRangeImpl::traverseTextNode( DOMNode*n, bool isLeft, int how )
         XMLSize_t endLen = XMLString::stringLen(fEndContainer->getNodeValue());
         XMLSize_t offset = getEndOffset();
 
-        if (endLen == offset) {
-            if ( how != CLONE_CONTENTS )
-                n->setNodeValue(XMLUni::fgZeroLenString);
-        }
-        else {
-            XMLCh* oldNodeValue;
-            XMLCh oldTemp[4000];
-
-            if (offset >= 3999)  {
-                oldNodeValue = (XMLCh*) fMemoryManager->allocate
-                (
-                    (offset+1) * sizeof(XMLCh)
-                );//new XMLCh[offset+1];
-            }
-            else {
-                oldNodeValue = oldTemp;
-            }
-            XMLString::subString(oldNodeValue, txtValue, offset, endLen, ((DOMDocumentImpl *)fDocument)->getMemoryManager());
-
-            if ( how != CLONE_CONTENTS )
-                n->setNodeValue( ((DOMDocumentImpl *)fDocument)->getPooledString(oldNodeValue) );
-
-            if (offset>= 3999)
-                fMemoryManager->deallocate(oldNodeValue);//delete[] oldNodeValue;
+        // remove the selected characters [0, offset) with deleteData (see above)
+        if ( how != CLONE_CONTENTS && offset > 0) {
+            if (n->getNodeType() == DOMNode::PROCESSING_INSTRUCTION_NODE)
+                ((DOMProcessingInstructionImpl*)n)->deleteData(0, offset);
+            else
+                ((DOMCharacterData*)n)->deleteData(0, offset);
         }
 
         if ( how==DELETE_CONTENTS )
